@@ -20,7 +20,7 @@ func init() {
 			"R-C10-2 back-off constants as loop facts (init: i < 50, wait 0 then min((i+1)·250ms, 3s); receiveRetry: i < 5, wait i·50ms; exhaustion returns a non-nil error); " +
 			"R-C10-3 every timer wait in the module sits in a select that also has a ctx.Done() case, no time.Sleep, bare receives only on Done()/Ready() channels; " +
 			"R-C10-4 advertise/monitor start every goroutine with eg.Go on an errgroup.WithContext group using the derived context, return eg.Wait's error; Listen interrupts the read on cancellation; a link event yields ErrLinkChange; " +
-			"R-C10-5 the error handed to init on re-dial is the one the task function returned R-C10-6 the failed read/write stays in the error chain (returned as is or %w-wrapped) in Listen, send and the task goroutines; R-C10-7 the Dial callbacks of Run return the task's error unchanged unless it is context.Canceled and panic only for nil; R-C10-8 linkStateWatcher(group ctx, watchC) runs under the task's errgroup, BuildTasks hands each task Watcher.Subscribe(own name, LinkDown), and the watcher waits whenever the channel is non-nil; R-C10-9 every send of a request to the scheduler (listener callback, multicast loop) is an arm of a blocking select with ctx.Done(), so no goroutine of the task outlives a stopped scheduler; R-C10-10 the context Dial hands to the task function is its own ctx or one derived from it inside the same re-dial iteration; R-C10-11 receiveRetry goes round its loop after a failed read only under net.Error.Timeout() == true.",
+			"R-C10-5 the error handed to init on re-dial is the one the task function returned R-C10-6 the failed read/write stays in the error chain (returned as is or %w-wrapped) in Listen, send and the task goroutines; R-C10-7 the Dial callbacks of Run return the task's error unchanged unless it is context.Canceled and panic only for nil; R-C10-8 linkStateWatcher(group ctx, watchC) runs under the task's errgroup, BuildTasks hands each task Watcher.Subscribe(own name, LinkDown), and the watcher waits whenever the channel is non-nil; R-C10-9 every send of a request to the scheduler (listener callback, multicast loop) is an arm of a blocking select with ctx.Done(), so no goroutine of the task outlives a stopped scheduler; R-C10-10 the context Dial hands to the task function is its own ctx or one derived from it inside the same re-dial iteration; R-C10-11 receiveRetry goes round its loop after a failed read only under net.Error.Timeout() == true; R-C10-12 (shared with R-C11-6) the sysctl helpers keep the os error in the chain, so a vanished interface is tolerated at clean-up and the task is re-dialed; R-C10-13 Listen asks ctx.Err() about a failed read before it cancels the context it derived.",
 		Assumptions: []string{
 			"Go type checker and go/ssa construction are correct",
 			"errgroup.WithContext cancels the derived context on the first non-nil error",
@@ -42,6 +42,9 @@ func runC10(c *Ctx) {
 	c10FailTogether(c)
 	requestChannelSends(c, "R-C10-9")
 	c10RetryOnlyTimeouts(c)
+	// a vanished interface must be recognisable when autoconf is restored, or the re-dial never happens
+	sysctlCause(c, "R-C10-12")
+	listenClassifiesBeforeCancel(c, "R-C10-13")
 }
 
 // c10RetryOnlyTimeouts (R-C10-11): a failed read is retried on the same
@@ -1163,4 +1166,61 @@ func c10TaskWiring(c *Ctx) {
 		c.R.Check(okNil && nSel >= 1, "R-C10-8", c.fname(lw)+":waits-when-channel-exists", c.fname(lw), c.pos(lw.Pos()), fmt.Sprintf("%d waiting path(s); nil-channel handling consistent=%v", nSel, okNil),
 			"returns at once only for a nil channel; otherwise waits for ctx.Done() or an event", "the link watcher exits immediately although a channel exists")
 	}
+}
+
+
+// listenClassifiesBeforeCancel (R-C10-13 / R-C05-6): Listen derives its own
+// cancellable context for the interrupt goroutine. Whether a failed read means
+// "the task is stopping" is decided by ctx.Err(); that test must come before
+// Listen cancels the derived context itself, otherwise every read failure
+// looks like a cancellation, Run reports a clean shutdown, the dialer does not
+// re-dial and the interface silently stops being served (periodic RAs
+// included) while the server keeps running.
+func listenClassifiesBeforeCancel(c *Ctx, rule string) {
+	l := c.needMethod(rule, "internal/corerad", "listener", "Listen")
+	if l == nil {
+		return
+	}
+	fn := c.fname(l)
+	isCancel := func(e *an.Expr) bool {
+		return e != nil && e.Op == an.OpExtract && e.Idx == 1 && len(e.Args) == 1 && e.Args[0].Op == an.OpCall && e.Args[0].Fn != nil && strings.HasPrefix(e.Args[0].Fn.String(), "context.With")
+	}
+	n, bad := 0, ""
+	for _, p := range c.pathsO(rule, l, an.PathOpts{EmitCut: true}) {
+		failed := false
+		for _, a := range p.Atoms {
+			x, y, op, ok := effCmp(a)
+			if ok && exprIsNil(y) && op == token.NEQ {
+				if b, idx := stripExtract(x); idx >= 1 && b != nil && exprCallIs(b, PkgCorerad, "listener", "receiveRetry") {
+					failed = true
+				}
+			}
+		}
+		if !failed {
+			continue
+		}
+		n++
+		i, errAt, cancelAt := 0, -1, -1
+		p.Instrs(func(in ssa.Instruction) {
+			i++
+			call, ok := in.(*ssa.Call) // deferred calls run at the return, after the classification
+			if !ok {
+				return
+			}
+			cc := call.Common()
+			if cc.IsInvoke() && cc.Method.Name() == "Err" && strings.HasSuffix(typeStr(cc.Value.Type()), "context.Context") && errAt < 0 {
+				errAt = i
+			}
+			if !cc.IsInvoke() && isCancel(p.Of(cc.Value)) && cancelAt < 0 {
+				cancelAt = i
+			}
+		})
+		if errAt < 0 {
+			bad = "a failed read is not classified by ctx.Err() (" + pathKind(p) + ")"
+		} else if cancelAt >= 0 && cancelAt < errAt {
+			bad = "Listen cancels its own context before it asks ctx.Err() about a failed read"
+		}
+	}
+	c.R.Check(n >= 2 && bad == "", rule, fn+":classifies-before-cancel", fn, c.pos(l.Pos()), fmt.Sprintf("%d path(s) after a failed read; %s", n, bad),
+		"a failed read is classified by ctx.Err() before Listen cancels the context it derived", "every receive error is reported as context.Canceled: the task ends as if stopped and is never re-established")
 }
